@@ -8,6 +8,13 @@ import math
 from hypothesis import strategies as st
 from . import model as M
 
+
+def _sanitize(m):
+    from harness.sanitize import sanitize
+    return sanitize(m)
+
+
+
 NAMES = ["x", "y", "z", "w", "t"]
 
 CONST_POOL = [0, 1, -1, 2, -2, 3, 0.5, -0.5, 0.25, 4, 8, math.e, 1.0, 2.0, 0.0, -1.0, 3.0, 10, -3, 1.5]
@@ -118,7 +125,7 @@ def trees(draw, names, depth=4, pool=None, tags=None, max_arity=5, leaf=None, co
         if k >= 2 and kids[0][0] not in M.LEAVES and draw(st.integers(0, 7)) == 0:
             kids[draw(st.integers(1, k - 1))] = M.clone(kids[0])
         return (t, tuple(kids))
-    return M.cap_powers(sub(depth))
+    return _sanitize(sub(depth))
 
 
 @st.composite
@@ -137,7 +144,7 @@ def dags(draw, names, max_defs=5, depth=2, tags=None, const_bias=3):
         b = draw(st.sampled_from(pool))
         t = draw(st.sampled_from(["Add", "Multiply", "Minus", "Divide", "Power"]))
         root = (t, (a, b, root)) if t in M.NARY else (t, a, root) if draw(st.booleans()) else (t, root, b)
-    return M.cap_powers(root)
+    return _sanitize(root)
 
 
 @st.composite
@@ -155,7 +162,7 @@ def chains(draw, names, max_len=40):
             m = (t, m, draw(st.sampled_from([math.e, 2, 0.5, 1])))
         else:
             m = (t, m, draw(st.sampled_from([math.e, 2, 0.5])))
-    return M.cap_powers(m)
+    return _sanitize(m)
 
 
 @st.composite
@@ -196,7 +203,7 @@ def covering(draw, names, depth=2, tags=None):
             root = (op, (root, p, root)) if draw(st.integers(0, 4)) == 0 else (op, (root, p))
         else:
             root = (op, root, p)
-    return M.cap_powers(root)
+    return _sanitize(root)
 
 
 def expressions(names, depth=4, tags=None):
